@@ -15,9 +15,23 @@ INT = {"I1024": "parameters.i1024", "I2048": "parameters.i2048", "I3072": "param
 PNAME = {"I1024": "Params1024", "I2048": "Params2048", "I3072": "Params3072"}
 
 
+from checks.common import TOYS as CUSTOM
+_custom_cache = {}
+
+
+def custom_world(gname):
+    """a custom IntegerGroup (p, q not byte aligned) and its default parameter set, built by the real constructors of the
+    tree under test (concrete, before any domain layer is installed)"""
+    if gname not in _custom_cache:
+        p, q, g = CUSTOM[gname]
+        grp = loader.MODS["groups"].IntegerGroup(p=p, q=q, g=g)
+        _custom_cache[gname] = (grp, loader.MODS["params"]._Params(grp))
+    return _custom_cache[gname]
+
+
 def jobs_for(pid, tier):
     js = []
-    groups = ["I1024", "Ed25519"] if tier == "quick" else ["I1024", "I2048", "I3072", "Ed25519"]
+    groups = ["I1024", "Ed25519", "toy1019"] if tier == "quick" else ["I1024", "I2048", "I3072", "Ed25519", "toy11", "toy1019", "toy257", "sp61"]
     if pid == "C01":
         for g in groups:
             for fl in ("AB", "SS"):
@@ -99,10 +113,13 @@ def make_world(ctx, gname):
         w.scalar_ref = _ed_scalar_ref
     else:
         G = loader.MODS["groups"]
-        g = getattr(G, gname)
+        if gname in CUSTOM:
+            g, params = custom_world(gname)
+        else:
+            g, params = getattr(G, gname), getattr(loader.MODS[INT[gname]], PNAME[gname])
         D = DlogDomain(g, gname)
         D.install(ctx)
-        w.params = getattr(loader.MODS[INT[gname]], PNAME[gname])
+        w.params = params
         w.q = g.q
         w.W = (g.p.bit_length() + 7) // 8
         w.D = D
